@@ -4,6 +4,7 @@ from ..logic import Facts
 from ..rules_vector import Checker, rule_INV
 from ..rules_bounds import rule_B1
 from ..rules_own import discover_owners, null_writes
+from ..rules_layout import rule_stride_inv
 from ._common import run_vector, vector_configs
 from .. import config
 
@@ -46,6 +47,7 @@ def rule(tu, rec):
     # preconditions: no read of a slot at or behind size()
     rule_B1(ck, "Z2e", fns=("w_erase1_result", "w_erase2_result", "w_pop_back", "w_clear"))
     rule_INV(ck, "Z3")
+    rule_stride_inv(ck, "Z3s")
     owners = discover_owners(tu)
     null_writes(ck, owners, "NULLW", fns=Z_OPS)
 
@@ -59,6 +61,7 @@ def run(tier, seed, only=None):
         "(any capacity, including 0 and a null table) none of clear, erase(begin,end), reserve, copy, move, swap, destruction or "
         "the observers reads an address-table slot (no slot is written yet) or writes one outside the capacity; no bulk "
         "write goes through a null block.  Z3: every mutator re-establishes the state invariants from such a state, so the "
-        "vector then behaves like any other (C01's induction).  Independence from junk in fresh memory beyond 'no unwritten "
+        "vector then behaves like any other (C01's induction); Z3s: all-fixed lists - every constructor (default construction "
+        "included) and mutator leaves the element stride equal to the stride formula of the state's fixed sizes.  Independence from junk in fresh memory beyond 'no unwritten "
         "slot is read' is not decided.",
         cfgs=cfgs, min_cfg=50, min_ob=1500)
